@@ -64,7 +64,11 @@ class ExprMixin:
         return self.const(e.value, self.site_of(e, fr))
 
     def ev_Name(self, e, fr, st):
-        return self.lookup_name(e.id, fr, st, self.site_of(e, fr))
+        v = self.lookup_name(e.id, fr, st, self.site_of(e, fr))
+        if v.op == "Phi" and st.pc:
+            # a branch-selected value read on a path that has already decided the same condition
+            v = self.select_by_pc(v, st)
+        return v
 
     def ev_Attribute(self, e, fr, st):
         obj = self.eval(e.value, fr, st)
